@@ -95,6 +95,11 @@ class Env:
 def gen_case(rng):
     nnames = rng.choice([1, 2, 3, 3, 4, 5])
     names = rng.sample(X.NAME_POOL, nnames)
+    reserved = None
+    if rng.random() < 0.1:
+        # a name the MACHINE reserves (a state id, send, states) is an ordinary name on the model / a listener
+        reserved = rng.choice(["s0", "send", "states", "final_states"])
+        names[rng.randrange(len(names))] = reserved
     layout = {}
     use_async = rng.random() < 0.06
     for n in names:
@@ -109,6 +114,9 @@ def gen_case(rng):
         else:
             provs = rng.sample(["sm", "model", "l0"], 2)
             provs.sort(key=["sm", "model", "l0"].index)
+        if n == reserved:
+            provs = [p for p in provs if p != "sm"] or [rng.choice(["model", "l0"])]
+            kind = rng.choice(["method", "prop", "method_kw"])
         layout[n] = {"kind": kind, "providers": provs}
     if use_async:
         n = rng.choice(names)
